@@ -48,7 +48,12 @@ void harness(void) {
   C[0] = 'X';       /* length 1: first = last character, C is simply a third name */
 #endif
   vk_cur = 0;
+#if KIND == 0
   H *a = mk(A, 1), *b = mk(B, 2), *c = mk(C, 3);
+#else
+  /* segments cost two key derivations each: the name differing in its FIRST character is left to the C06 queries */
+  H *a = mk(A, 1), *b = mk(B, 2), *c = b;
+#endif
   vk_cur = 1;
   H *a2 = mk(A2, 1);
   VASSERT(a != NULL && b != NULL && c != NULL && a2 != NULL, "objects with long names are created/opened");
@@ -66,23 +71,23 @@ void harness(void) {
   VASSERT(p_semaphore_release(a2, NULL) == TRUE, "release through the equal name");
   VASSERT(vk_sem_value(0) == 2, "equal names share one counter");
 #elif KIND == 1
-  VASSERT(vk_names_linked() == 6, "three different names -> three segments and three lock semaphores, the equal name -> the same ones");
-  VASSERT(mem(a) != mem(b) && mem(a) != mem(c) && mem(b) != mem(c), "different names address different memory");
+  VASSERT(vk_names_linked() == 4, "two different names -> two segments and two lock semaphores, the equal name -> the same ones");
+  VASSERT(mem(a) != mem(b), "different names address different memory");
   VASSERT(mem(a2) == mem(a), "equal names address the same memory");
-  VASSERT(p_shm_get_size(a) == 5 && p_shm_get_size(b) == 6 && p_shm_get_size(c) == 7 && p_shm_get_size(a2) == 5, "each creator sees the size it asked for");
+  VASSERT(p_shm_get_size(a) == 5 && p_shm_get_size(b) == 6 && p_shm_get_size(a2) == 5, "each creator sees the size it asked for");
   mem(a)[2] = 77;
-  VASSERT(mem(a2)[2] == 77 && mem(b)[2] == 0 && mem(c)[2] == 0, "a byte stored under one name is seen under the equal name only");
+  VASSERT(mem(a2)[2] == 77 && mem(b)[2] == 0, "a byte stored under one name is seen under the equal name only");
   vk_cur = 0;
   vk_expect_noblock = 1;
-  VASSERT(p_shm_lock(a, NULL) == TRUE && p_shm_lock(b, NULL) == TRUE && p_shm_lock(c, NULL) == TRUE, "each name has its own lock");
+  VASSERT(p_shm_lock(a, NULL) == TRUE && p_shm_lock(b, NULL) == TRUE, "each name has its own lock");
   vk_expect_noblock = 0;
 #else
-  VASSERT(vk_names_linked() == 6, "three different names -> three buffers, the equal name -> the same one");
+  VASSERT(vk_names_linked() == 4, "two different names -> two buffers, the equal name -> the same one");
   unsigned char d[2] = { 5, 6 };
   vk_cur = 0;
-  VASSERT(p_shm_buffer_get_free_space(a, NULL) == 5 && p_shm_buffer_get_free_space(b, NULL) == 6 && p_shm_buffer_get_free_space(c, NULL) == 7, "each buffer has the capacity its creator asked for");
+  VASSERT(p_shm_buffer_get_free_space(a, NULL) == 5 && p_shm_buffer_get_free_space(b, NULL) == 6, "each buffer has the capacity its creator asked for");
   VASSERT(p_shm_buffer_write(a, d, 2, NULL) == 2, "write under name A");
-  VASSERT(p_shm_buffer_get_used_space(b, NULL) == 0 && p_shm_buffer_get_used_space(c, NULL) == 0, "buffers of other names are unaffected");
+  VASSERT(p_shm_buffer_get_used_space(b, NULL) == 0, "buffers of other names are unaffected");
   vk_cur = 1;
   VASSERT(p_shm_buffer_get_used_space(a2, NULL) == 2, "equal names share one buffer");
 #endif
